@@ -77,6 +77,9 @@ pub struct Opts {
     pub gates_as_control: bool,
     /// use the alias-preserving object graph as state key (K_shape)
     pub shape_key: bool,
+    /// states one slot deeper than the box are still expanded with their operand-consuming opcodes
+    /// (their successors are checked, not enqueued): guards are exercised at depth D+1 at a fraction of the cost
+    pub fringe_consumers: bool,
     /// record (script, k, output) of every run (C07 replays them elsewhere)
     pub collect_runs: bool,
     /// answers tried for a mutator gate besides the default 0.0 (empty = just 2.0, which declines at every rate in [0,1])
@@ -98,6 +101,7 @@ impl Default for Opts {
             shape_key: false,
             gate_alphabet: vec![],
             collect_runs: false,
+            fringe_consumers: false,
         }
     }
 }
@@ -124,6 +128,11 @@ pub struct Stats {
     pub deviation_runs: u64,
     pub max_script_len: usize,
     pub machinery_errors: Vec<String>,
+    /// runs that returned no bytes (panic / Err): the property's oracle cannot judge them (C09's business)
+    pub no_output_runs: u64,
+    pub fringe_states: u64,
+    pub fringe_transitions: u64,
+    pub first_no_output: Option<String>,
 }
 
 impl Stats {
@@ -145,6 +154,12 @@ impl Stats {
         self.deviation_runs += o.deviation_runs;
         self.max_script_len = self.max_script_len.max(o.max_script_len);
         self.machinery_errors.extend(o.machinery_errors.iter().cloned());
+        self.no_output_runs += o.no_output_runs;
+        self.fringe_states += o.fringe_states;
+        self.fringe_transitions += o.fringe_transitions;
+        if self.first_no_output.is_none() {
+            self.first_no_output = o.first_no_output.clone();
+        }
     }
 }
 
@@ -216,6 +231,15 @@ pub fn kind_key(
     let base = k.clone();
     k.extend_from_slice(&mask_of(valid));
     (k, base)
+}
+
+/// opcodes that take operands from the stack (pickletools stack_before non-empty) — the ones with kind/depth guards
+pub fn is_consumer(code: u8) -> bool {
+    matches!(
+        code,
+        b'a' | b'e' | b'l' | b't' | 0x85 | 0x86 | 0x87 | b'd' | b's' | b'u' | 0x90 | 0x91 | b'0' | b'1' | b'p' | b'q' | b'r' | 0x94
+            | 0x93 | b'R' | b'b' | b'i' | b'o' | 0x81 | 0x92 | b'Q' | 0x98 | b'2'
+    )
 }
 
 pub type MonitorFn<'m> = dyn Fn(&RunCtx) -> Vec<Finding> + Sync + 'm;
@@ -294,6 +318,12 @@ impl<'a> Explorer<'a> {
                 script.len() + ZERO_TAIL,
                 lexer::hex(script)
             ));
+        }
+        if res.bytes().is_none() {
+            exp.stats.no_output_runs += 1;
+            if exp.stats.first_no_output.is_none() {
+                exp.stats.first_no_output = Some(format!("{} script {}: {:?} {:?}", cfg.describe(), lexer::hex(script), res.out.as_ref().err(), res.panic));
+            }
         }
         let (ops, m) = match res.bytes() {
             Some(b) => analyse(b),
@@ -452,10 +482,13 @@ impl<'a> Explorer<'a> {
         }
     }
 
-    fn expand(&self, rep: &Rep) -> Expansion {
+    fn expand(&self, rep: &Rep, only_consumers: bool) -> Expansion {
         let mut exp = Expansion::default();
         let n = rep.enabled.len() as u64;
         for i in 0..n {
+            if only_consumers && !is_consumer(rep.enabled[i as usize]) {
+                continue;
+            }
             let mut s = rep.script.clone();
             s.extend_from_slice(&script::enc_index(i, n));
             let k = rep.k + 1;
@@ -572,6 +605,7 @@ impl<'a> Explorer<'a> {
             }
         };
 
+        let mut fringe: Vec<Rep> = vec![];
         let mut level = 0usize;
         while !frontier.is_empty() {
             level += 1;
@@ -591,7 +625,7 @@ impl<'a> Explorer<'a> {
                 let exps: Vec<Expansion> = chunk
                     .par_iter()
                     .map(|r| {
-                        let mut e = self.expand(r);
+                        let mut e = self.expand(r, false);
                         e.succs.retain(|s| !seen_ref.contains(&s.key));
                         e.succs.sort_by(|a, b| (a.key, a.rep.script.len(), &a.rep.script).cmp(&(b.key, b.rep.script.len(), &b.rep.script)));
                         e.succs.dedup_by(|b, a| a.key == b.key);
@@ -626,6 +660,9 @@ impl<'a> Explorer<'a> {
                 }
                 if s.depth > self.opts.max_depth || s.memo > self.opts.max_memo {
                     stats.pruned += 1;
+                    if self.opts.fringe_consumers && s.depth == self.opts.max_depth + 1 && s.memo <= self.opts.max_memo {
+                        fringe.push(s.rep);
+                    }
                     continue;
                 }
                 nf.push(s.rep);
@@ -639,6 +676,24 @@ impl<'a> Explorer<'a> {
             if stats.cap_hit {
                 break;
             }
+        }
+        if !fringe.is_empty() && !stats.cap_hit {
+            fringe.sort_by(|a, b| (a.script.len(), &a.script).cmp(&(b.script.len(), &b.script)));
+            for chunk in fringe.chunks(8192) {
+                let exps: Vec<Expansion> = chunk
+                    .par_iter()
+                    .map(|r| {
+                        let mut e = self.expand(r, true);
+                        e.succs.clear();
+                        e
+                    })
+                    .collect();
+                for e in exps {
+                    stats.fringe_transitions += e.stats.transitions;
+                    let _ = absorb(e, &mut stats, &mut found, &mut xval, &mut xval_seen, &mut witnesses);
+                }
+            }
+            stats.fringe_states = fringe.len() as u64;
         }
         Outcome {
             stats,
